@@ -360,6 +360,33 @@ def sp_astar_cut(interp, st, args, kwargs, node):
     )
     return z3.Implies(prem, z3.Exists([y0, y1, z0, z1], body))
 
+def sp_same_shape(interp, st, args, kwargs, node):
+    """two arrays have the same shape"""
+    a, b = args
+    sa = tuple(a.shape) if isinstance(a, Arr) else tuple(a.dims)
+    sb = tuple(b.shape) if isinstance(b, Arr) else tuple(b.dims)
+    if len(sa) != len(sb):
+        return False
+    return b_and(*[M.s_cmp(ast.Eq(), x, y) for x, y in zip(sa, sb)])
+
+
+def sp_n_diff(interp, st, args, kwargs, node):
+    """number of positions at which two arrays of the same shape differ (numpy: np.sum(a != b))"""
+    a, b = args
+    if isinstance(a, Grid) and isinstance(b, Grid) and getattr(a, "concrete", None) is None:
+        return M.n_diff_term(st, a, b)
+    ne = M.compare(interp, st, ast.NotEq(), a, b, node)
+    return M.np_sum(interp, st, [ne], {}, node)
+
+
+def sp_same_value(interp, st, args, kwargs, node):
+    """structural equality of two values of the same shape (records, lists, arrays): every leaf equal"""
+    a, b = args
+    if a is b:
+        return True
+    return V.values_equal(a, b)
+
+
 def sp_is_filter(interp, st, args, kwargs, node):
     """is_filter(lst, src, lambda k: rule(k)[, upto]): lst is exactly the elements src[k], k < upto (default len(src)), with rule(k), in order"""
     from . import filt
@@ -607,6 +634,9 @@ SPEC_FUNCTIONS = {
     "edge": sp_edge,
     "reach": sp_reach,
     "is_filter": sp_is_filter,
+    "same_value": sp_same_value,
+    "same_shape": sp_same_shape,
+    "n_diff": sp_n_diff,
     "dist": sp_dist,
     "astar_cut": sp_astar_cut,
     "reach_induction": sp_reach_induction,
